@@ -103,6 +103,14 @@ CHECKS = {
                      "absolute terms, and the result must equal that of the input with the observation deleted. Isolate adds a point with a single "
                      "determining element: it must be removed, not adjusted, and be reported.",
                 note="direction sets with fewer than two targets and points without coordinates are covered through C06/C20 sessions only", ref="8/C14"),
+    "C12": dict(cat="exploration", technique="TLC-checked escape law + TLC-enumerated identifier strings; writer -> two independent readers; language/tool laws",
+                text="XmlResult.tla states the escape function of the XML recommendation and TLC checks Unescape(Escape(s)) = s on all strings over "
+                     "{a < > & ' \" e-acute blank} up to length 3; the strings become point ids and descriptions of generated networks (all --cov-band "
+                     "values). The XML written by gama-local must be well-formed and carry the strings unchanged; gama's own readers (read_xml, "
+                     "read_html through harness/drv_results) must return the same ids, coordinates, covariance band, orientations, observations and "
+                     "statistics as the independent ElementTree reader. The numeric tokens of the text output must be equal for all 11 languages; "
+                     "compare-xyz of a result with itself must succeed.",
+                note="Octave output, SVG, SQL export and gama-local-deformation are not yet covered; HTML is compared on ids, coordinates and counts only", ref="8/C12"),
 }
 
 NOT_APPLICABLE = []
